@@ -297,6 +297,18 @@ func corpus() []corpusApp {
 		}
 	}
 	add("echo", echoApp, []engine.Config{{}, {OutputSize: 20}, {CacheSize: 14}})
+	add("trailnl", func() *app.App {
+		// values that end in a newline: the last loaded value is the last thing in the stored record
+		a := app.New("trailnl")
+		a.Node("root", "note: {{.note}}", codec.Ins{Op: codec.LOAD, Sym: "note", N: 40}, codec.Ins{Op: codec.MAP, Sym: "note"}, codec.Ins{Op: codec.MOUT, Sym: "go", Sel: "1"}, codec.Ins{Op: codec.HALT},
+			codec.Ins{Op: codec.INCMP, Sym: "nn", Sel: "1"}, codec.Ins{Op: codec.INCMP, Sym: ".", Sel: "5"})
+		a.Node("nn", "nn {{.tail}}", codec.Ins{Op: codec.LOAD, Sym: "tail", N: 0}, codec.Ins{Op: codec.MAP, Sym: "tail"}, codec.Ins{Op: codec.MOUT, Sym: "back", Sel: "0"}, codec.Ins{Op: codec.HALT},
+			codec.Ins{Op: codec.INCMP, Sym: "_", Sel: "0"})
+		a.Node("_catch", "catch", codec.Ins{Op: codec.HALT}, codec.Ins{Op: codec.INCMP, Sym: "_", Sel: "*"})
+		a.Func("note", constFunc("saved\n")).Func("tail", constFunc("first\nsecond\n\n"))
+		a.WithInputs("1", "0", "5")
+		return a
+	}, []engine.Config{{}, {OutputSize: 60}})
 	add("form", formApp, []engine.Config{{}, {CacheSize: 10}, {CacheSize: 40, OutputSize: 60}})
 	// repository examples, read from the tree this binary is linked against
 	if dir := c16RepoDir(); dir != "" {
